@@ -132,7 +132,9 @@ def run_kani(prop, tier, obs, mods, jobs, replay_dir, known_sites):
             if rec["status"] == "refuted":
                 site = o["harness"]
                 pb = None
-                if status == "Failure":
+                if status == "Failure" and site in known_sites and o["meta"].get("witness"):
+                    pb = {"generated": False, "note": "witness of a recorded known finding: not replayed"}
+                elif status == "Failure":
                     log("replaying counterexample of %s natively" % name)
                     pb = K.playback(scratch, cfg, name, o["module"] + ".rs", o["meta"].get("cbmc"))
                 rp = os.path.join(replay_dir, "%s.%s.json" % (o["harness"], cfg))
